@@ -167,6 +167,52 @@ def inplace_shift_probe(ex, rel, func, recv):
     return run
 
 
+def or_done_probe(ex, rel, func):
+    """the (single) non-trivial assignment `no_op_mask = <expr>`: is it `<something> | td['done']`?"""
+    import ast
+
+    def run():
+        fn = _fn(ex, rel, func)
+        if fn is None:
+            return None
+        hits = []
+        for n in ast.walk(fn):
+            if isinstance(n, ast.Assign) and len(n.targets) == 1 and ex.norm(n.targets[0]) == "no_op_mask":
+                if ex.norm(n.value) == "td['done']":
+                    continue  # the mask_no_ops=True branch
+                v = n.value
+                if isinstance(v, ast.BinOp) and isinstance(v.op, ast.BitOr) and "td['done']" in (ex.norm(v.left), ex.norm(v.right)):
+                    hits.append("true")
+                else:
+                    hits.append("false")
+        return hits[0] if len(hits) == 1 else None
+
+    return run
+
+
+def and_guard_probe(ex, rel, func, target, guard):
+    """`target = guard & (…)` (either operand order): true; `target = <expr without guard>`: false"""
+    import ast
+
+    G = guard.replace('"', "'").replace(" ", "")
+
+    def run():
+        fn = _fn(ex, rel, func)
+        if fn is None:
+            return None
+        hits = []
+        for n in ast.walk(fn):
+            if isinstance(n, ast.Assign) and len(n.targets) == 1 and ex.norm(n.targets[0]) == target:
+                v = n.value
+                if isinstance(v, ast.BinOp) and isinstance(v.op, ast.BitAnd) and G in (ex.norm(v.left), ex.norm(v.right)):
+                    hits.append("true")
+                elif G not in ex.norm(v):
+                    hits.append("false")
+        return hits[0] if len(hits) == 1 else None
+
+    return run
+
+
 _register_round1 = register
 
 
@@ -198,3 +244,13 @@ def register(ex):
              module_const_probe(ex, I, "NO_OP_ID"))
     ex.probe("fjspActionShift", "Int", "1", "fjsp/env.py:_step  `td['action'].subtract_(1)`",
              inplace_shift_probe(ex, F, "FJSPEnv._step", "td['action']"))
+    # growth round 2: structure of the wait mask and of the release test
+    ex.probe("fjspNoOpKeepsDone", "Bool", "true",
+             "fjsp/env.py:FJSPEnv.get_action_mask (mask_no_ops=False)  `no_op_mask = (… & ~done) | td['done']` (true) / no `| done` (false)",
+             or_done_probe(ex, F, "FJSPEnv.get_action_mask"))
+    ex.probe("jsspNoOpKeepsDone", "Bool", "true",
+             "jssp/env.py:JSSPEnv.get_action_mask (mask_no_ops=False)  `no_op_mask = (… & ~done) | td['done']` (true) / no `| done` (false)",
+             or_done_probe(ex, "rl4co/envs/scheduling/jssp/env.py", "JSSPEnv.get_action_mask"))
+    ex.probe("fjspReleaseGuardsInProcess", "Bool", "true",
+             "fjsp/env.py:_transit_to_next_time  `op_finished = td['job_in_process'] & (curr_ops_end <= time)` (true) / guard missing (false)",
+             and_guard_probe(ex, F, "FJSPEnv._transit_to_next_time", "op_finished", "td['job_in_process']"))
